@@ -129,6 +129,8 @@ mod harness {
                 assert!(headers[r - 1].header.number == start - 1, "SPEC shape: reorg section does not end right before start");
             }
             assert!(l >= if last_n < n - r { last_n } else { n - r }, "SPEC shape: last-N section shorter than min(last_n, available)");
+            // the last-N section is the run of blocks right before the requested last header - with or without samples
+            assert!(headers[n - 1].header.number.checked_add(1) == Some(last.header.number), "SPEC shape: the last-N section does not end right before the last header");
             if s == 0 && l > 0 {
                 assert!(headers[r].header.number == start, "SPEC shape: without samples the last-N section must begin at start");
                 assert!(headers[n - 1].header.number.checked_add(1) == Some(last.header.number), "SPEC shape: without samples the last-N section must end right before the last header");
